@@ -9,3 +9,4 @@ for p in "$@"; do
   echo "$out" | grep -A1 "^VIOLATION" | head -8
 done
 git -C /repo checkout -- . && git -C /repo status --short | head -3
+(cd /verif/extract && GOFLAGS=-mod=mod GOPROXY=off GOSUMDB=off GOTOOLCHAIN=local go run . -repo /repo -out /verif/lean/Ovsdb/Generated >/dev/null)
